@@ -670,7 +670,11 @@ theorem dropIfOrphan_invP (s : Store) (sp : String) (P : List String) (h : s.Inv
       rcases h1 with h1 | h1
       · subst h1
         left
-        simp only [Bool.and_eq_true, List.isEmpty_iff, not_and_or] at ht
+        simp only [Bool.and_eq_true, List.isEmpty_iff] at ht
+        have ht : s.inIdx.getD sp' [] ≠ [] ∨ s.outIdx.getD sp' [] ≠ [] := by
+          by_cases h1 : s.inIdx.getD sp' [] = []
+          · exact Or.inr (fun h2 => ht ⟨h1, h2⟩)
+          · exact Or.inl h1
         rcases ht with ht | ht
         · obtain ⟨i, hi⟩ := List.exists_mem_of_ne_nil _ ht
           obtain ⟨e', he', _, hs⟩ := (d sp' i).1 hi
@@ -758,9 +762,295 @@ theorem remove_inv (s : Store) (i : String) (h : s.Inv) : (s.remove i).1.Inv := 
     · intro e' he'
       exact h.nonempty e' (List.mem_filter.1 he').1
 
-theorem initWorld_inv (n : Nat) : ∀ s ∈ initWorld n, s.Inv := by sorry
-theorem inv_run (w : World) (ops : List Op) (h : ∀ s ∈ w, s.Inv) : ∀ s ∈ run w ops, s.Inv := by sorry
+/-! ### `removeSpecies` -/
+
+def rsEdges (s : Store) (sp : String) : List Edge :=
+  (s.edges.map (·.strip sp)).filter (fun e => !e.isEmpty)
+
+def rsStore (s : Store) (sp : String) : Store :=
+  { s with edges := rsEdges s sp, inIdx := s.inIdx.set sp [], outIdx := s.outIdx.set sp [] }
+
+theorem Store.Inv.mem_in_iff {s : Store} (h : s.Inv) (sp : String) {e : Edge} (he : e ∈ s.edges) :
+    e.id ∈ s.inIdx.getD sp [] ↔ sp ∈ e.products.keys := by
+  rw [h.in_iff]
+  constructor
+  · rintro ⟨e', he', h1, h2⟩
+    rwa [h.edge_unique he' he h1] at h2
+  · intro h2; exact ⟨e, he, rfl, h2⟩
+
+theorem Store.Inv.mem_out_iff {s : Store} (h : s.Inv) (sp : String) {e : Edge} (he : e ∈ s.edges) :
+    e.id ∈ s.outIdx.getD sp [] ↔ sp ∈ e.reactants.keys := by
+  rw [h.out_iff]
+  constructor
+  · rintro ⟨e', he', h1, h2⟩
+    rwa [h.edge_unique he' he h1] at h2
+  · intro h2; exact ⟨e, he, rfl, h2⟩
+
+theorem strip_of_not_mem (e : Edge) (sp : String) (h1 : sp ∉ e.reactants.keys)
+    (h2 : sp ∉ e.products.keys) : e.strip sp = e := by
+  cases e
+  simp only [Edge.strip] at *
+  rw [erase_of_not_mem _ _ h1, erase_of_not_mem _ _ h2]
+
+theorem removeSpecies_edges2 (s : Store) (sp : String) (h : s.Inv) :
+    ((s.edges.map fun e =>
+      let e1 := if e.id ∈ s.inIdx.getD sp [] then { e with products := e.products.erase sp } else e
+      if e.id ∈ s.outIdx.getD sp [] then { e1 with reactants := e1.reactants.erase sp } else e1).filter
+      fun e => !((e.id ∈ s.inIdx.getD sp [] || e.id ∈ s.outIdx.getD sp []) && e.isEmpty))
+    = rsEdges s sp := by
+  have hmap : (s.edges.map fun e =>
+      let e1 := if e.id ∈ s.inIdx.getD sp [] then { e with products := e.products.erase sp } else e
+      if e.id ∈ s.outIdx.getD sp [] then { e1 with reactants := e1.reactants.erase sp } else e1)
+      = s.edges.map (·.strip sp) := by
+    apply List.map_congr_left
+    intro e he
+    simp only [h.mem_in_iff sp he, h.mem_out_iff sp he]
+    cases e with
+    | mk id rule r p =>
+      simp only [Edge.strip]
+      by_cases h1 : sp ∈ Dict.keys p <;> by_cases h2 : sp ∈ Dict.keys r <;>
+        simp [h1, h2, erase_of_not_mem]
+  rw [hmap]
+  unfold rsEdges
+  apply List.filter_congr
+  intro x hx
+  obtain ⟨e, he, rfl⟩ := List.mem_map.1 hx
+  have hid : (e.strip sp).id = e.id := rfl
+  rw [hid]
+  by_cases ht : e.id ∈ s.inIdx.getD sp [] ∨ e.id ∈ s.outIdx.getD sp []
+  · rcases ht with ht | ht <;> simp [ht]
+  · simp only [not_or] at ht
+    have h1 := ht.1; have h2 := ht.2
+    rw [h.mem_in_iff sp he] at h1
+    rw [h.mem_out_iff sp he] at h2
+    rw [strip_of_not_mem e sp h2 h1]
+    simp [ht.1, ht.2, h.nonempty e he]
+
+theorem removeSpecies_eq (s : Store) (sp : String) (prune : Bool) (h : s.Inv)
+    (hsp : sp ∈ s.species) :
+    s.removeSpecies sp prune =
+      (if prune then (rsStore s sp).dropIfOrphan sp
+        else { rsStore s sp with kept := setAdd s.kept sp }, .ok ()) := by
+  unfold Store.removeSpecies
+  simp only [hsp, not_true_eq_false, if_false]
+  rw [removeSpecies_edges2 s sp h]
+  cases prune <;> rfl
+
 theorem removeSpecies_edges (s s' : Store) (sp : String) (prune : Bool) (hinv : s.Inv)
     (h : s.removeSpecies sp prune = (s', .ok ())) :
-    s'.edges = (s.edges.map (·.strip sp)).filter (fun e => !e.isEmpty) := by sorry
+    s'.edges = (s.edges.map (·.strip sp)).filter (fun e => !e.isEmpty) := by
+  by_cases hsp : sp ∈ s.species
+  · rw [removeSpecies_eq s sp prune hinv hsp] at h
+    simp only [Prod.mk.injEq, and_true] at h
+    subst h
+    cases prune
+    · rfl
+    · simp only [if_true]
+      exact foldl_dropIfOrphan_edges [sp] (rsStore s sp)
+  · unfold Store.removeSpecies at h
+    simp [hsp] at h
+
+theorem mem_rsEdges (s : Store) (sp : String) (e' : Edge) :
+    e' ∈ rsEdges s sp ↔ ∃ e ∈ s.edges, e.strip sp = e' ∧ e'.isEmpty = false := by
+  simp only [rsEdges, List.mem_filter, List.mem_map, Bool.not_eq_eq_eq_not, Bool.not_true]
+  constructor
+  · rintro ⟨⟨e, he, h1⟩, h2⟩; exact ⟨e, he, h1, h2⟩
+  · rintro ⟨e, he, h1, h2⟩; exact ⟨⟨e, he, h1⟩, h2⟩
+
+theorem strip_isEmpty_false (e : Edge) (sp sp' : String) (hne : sp' ≠ sp)
+    (h : sp' ∈ e.speciesOf) : (e.strip sp).isEmpty = false := by
+  rw [mem_speciesOf] at h
+  simp only [Edge.isEmpty, Edge.strip, Bool.and_eq_false_iff]
+  rcases h with h | h
+  · exact Or.inl (isEmpty_false_of_mem_keys _ sp' ((Dict.mem_keys_erase _ _ _).2 ⟨h, hne⟩))
+  · exact Or.inr (isEmpty_false_of_mem_keys _ sp' ((Dict.mem_keys_erase _ _ _).2 ⟨h, hne⟩))
+
+theorem rsStore_invP (s : Store) (sp : String) (h : s.Inv) : (rsStore s sp).InvP [sp] := by
+  constructor
+  · show ((rsEdges s sp).map (·.id)).Nodup
+    have hsub : List.Sublist ((rsEdges s sp).map (·.id)) ((s.edges.map (·.strip sp)).map (·.id)) :=
+      List.filter_sublist.map _
+    have heq : (s.edges.map (·.strip sp)).map (·.id) = s.ids := by
+      rw [List.map_map]; rfl
+    rw [heq] at hsub
+    exact List.Nodup.sublist hsub h.ids_nodup
+  · intro sp' hsp'
+    by_cases hne : sp' = sp
+    · exact Or.inr (Or.inr (by simp [hne]))
+    · rcases (h.species_iff sp').1 hsp' with ⟨e, he, hs⟩ | hk
+      · left
+        refine ⟨e.strip sp, (mem_rsEdges s sp _).2 ⟨e, he, rfl, strip_isEmpty_false e sp sp' hne hs⟩, ?_⟩
+        rw [mem_speciesOf] at hs ⊢
+        simp only [Edge.strip, Dict.mem_keys_erase]
+        rcases hs with hs | hs
+        · exact Or.inl ⟨hs, hne⟩
+        · exact Or.inr ⟨hs, hne⟩
+      · exact Or.inr (Or.inl hk)
+  · intro sp' hsp'
+    apply (h.species_iff sp').2
+    rcases hsp' with ⟨e', he', hs⟩ | hk
+    · obtain ⟨e, he, rfl, _⟩ := (mem_rsEdges s sp e').1 he'
+      left
+      refine ⟨e, he, ?_⟩
+      rw [mem_speciesOf] at hs ⊢
+      simp only [Edge.strip, Dict.mem_keys_erase] at hs
+      rcases hs with hs | hs
+      · exact Or.inl hs.1
+      · exact Or.inr hs.1
+    · exact Or.inr hk
+  · intro sp' i
+    show i ∈ (s.inIdx.set sp []).getD sp' [] ↔ ∃ e ∈ rsEdges s sp, e.id = i ∧ sp' ∈ e.products.keys
+    by_cases hne : sp' = sp
+    · subst hne
+      rw [getD_set_self]
+      constructor
+      · intro h; simp at h
+      · rintro ⟨e', he', _, hs⟩
+        obtain ⟨e, he, rfl, _⟩ := (mem_rsEdges s sp' e').1 he'
+        simp only [Edge.strip, Dict.mem_keys_erase] at hs
+        exact absurd rfl hs.2
+    · rw [getD_set_other _ _ _ _ _ hne, h.in_iff]
+      constructor
+      · rintro ⟨e, he, h1, h2⟩
+        refine ⟨e.strip sp, (mem_rsEdges s sp _).2 ⟨e, he, rfl,
+          strip_isEmpty_false e sp sp' hne ((mem_speciesOf e sp').2 (Or.inr h2))⟩, h1, ?_⟩
+        simp only [Edge.strip, Dict.mem_keys_erase]
+        exact ⟨h2, hne⟩
+      · rintro ⟨e', he', h1, h2⟩
+        obtain ⟨e, he, rfl, _⟩ := (mem_rsEdges s sp e').1 he'
+        simp only [Edge.strip, Dict.mem_keys_erase] at h2
+        exact ⟨e, he, h1, h2.1⟩
+  · intro sp' i
+    show i ∈ (s.outIdx.set sp []).getD sp' [] ↔ ∃ e ∈ rsEdges s sp, e.id = i ∧ sp' ∈ e.reactants.keys
+    by_cases hne : sp' = sp
+    · subst hne
+      rw [getD_set_self]
+      constructor
+      · intro h; simp at h
+      · rintro ⟨e', he', _, hs⟩
+        obtain ⟨e, he, rfl, _⟩ := (mem_rsEdges s sp' e').1 he'
+        simp only [Edge.strip, Dict.mem_keys_erase] at hs
+        exact absurd rfl hs.2
+    · rw [getD_set_other _ _ _ _ _ hne, h.out_iff]
+      constructor
+      · rintro ⟨e, he, h1, h2⟩
+        refine ⟨e.strip sp, (mem_rsEdges s sp _).2 ⟨e, he, rfl,
+          strip_isEmpty_false e sp sp' hne ((mem_speciesOf e sp').2 (Or.inl h2))⟩, h1, ?_⟩
+        simp only [Edge.strip, Dict.mem_keys_erase]
+        exact ⟨h2, hne⟩
+      · rintro ⟨e', he', h1, h2⟩
+        obtain ⟨e, he, rfl, _⟩ := (mem_rsEdges s sp e').1 he'
+        simp only [Edge.strip, Dict.mem_keys_erase] at h2
+        exact ⟨e, he, h1, h2.1⟩
+  · exact h.mol_sub
+  · intro e' he'
+    obtain ⟨e, he, rfl, _⟩ := (mem_rsEdges s sp e').1 he'
+    exact ⟨nodup_keys_erase _ _ (h.sides_wf e he).1, nodup_keys_erase _ _ (h.sides_wf e he).2⟩
+  · intro e' he'
+    exact ((mem_rsEdges s sp e').1 he').choose_spec.2.2
+
+theorem removeSpecies_inv (s : Store) (sp : String) (prune : Bool) (h : s.Inv) :
+    (s.removeSpecies sp prune).1.Inv := by
+  by_cases hsp : sp ∈ s.species
+  · rw [removeSpecies_eq s sp prune h hsp]
+    have hP := rsStore_invP s sp h
+    cases prune
+    · simp only [Bool.false_eq_true, if_false]
+      obtain ⟨a, b, c, d, e, f, g, k⟩ := hP
+      refine ⟨a, ?_, d, e, f, g, k⟩
+      intro sp'
+      show sp' ∈ s.species ↔ (∃ e ∈ rsEdges s sp, sp' ∈ e.speciesOf) ∨ sp' ∈ setAdd s.kept sp
+      rw [mem_setAdd]
+      constructor
+      · intro hsp'
+        rcases b sp' hsp' with h1 | h1 | h1
+        · exact Or.inl h1
+        · exact Or.inr (Or.inl h1)
+        · exact Or.inr (Or.inr (by simpa using h1))
+      · rintro (h1 | h1 | h1)
+        · exact c sp' (Or.inl h1)
+        · exact c sp' (Or.inr h1)
+        · subst h1; exact hsp
+    · simp only [if_true]
+      exact foldl_dropIfOrphan_inv [sp] _ hP
+  · unfold Store.removeSpecies
+    simp only [hsp, not_false_eq_true, if_true]
+    exact h
+
+/-! ### Worlds -/
+
+theorem put_inv (w : World) (k : Nat) (s' : Store) (h : ∀ s ∈ w, s.Inv) (hs' : s'.Inv) :
+    ∀ s ∈ w.put k s', s.Inv := by
+  intro s hs
+  rcases List.mem_or_eq_of_mem_set hs with h1 | h1
+  · exact h s h1
+  · subst h1; exact hs'
+
+theorem step_inv (w : World) (op : Op) (h : ∀ s ∈ w, s.Inv) : ∀ s ∈ (step w op).1, s.Inv := by
+  unfold step
+  cases op with
+  | add k r p rule eid =>
+    simp only
+    split
+    · exact h
+    · rename_i s hk
+      have hs := h s (List.mem_of_getElem? hk)
+      have := add_inv s r p rule eid hs
+      split <;> rename_i heq <;> rw [heq] at this <;> exact put_inv w k _ h this
+  | remove k id =>
+    simp only
+    split
+    · exact h
+    · rename_i s hk
+      exact put_inv w k _ h (remove_inv s id (h s (List.mem_of_getElem? hk)))
+  | removeSpecies k sp prune =>
+    simp only
+    split
+    · exact h
+    · rename_i s hk
+      exact put_inv w k _ h (removeSpecies_inv s sp prune (h s (List.mem_of_getElem? hk)))
+  | merge k j pfx =>
+    simp only
+    split
+    · rename_i s o hk hj
+      split
+      · exact h
+      · exact put_inv w k _ h (merge_inv o.edges pfx s (h s (List.mem_of_getElem? hk))
+          (h o (List.mem_of_getElem? hj)).sides_wf)
+    · exact h
+  | copy k j =>
+    simp only
+    split
+    · exact h
+    · rename_i s hk
+      split
+      · exact put_inv w j _ h (h s (List.mem_of_getElem? hk))
+      · exact h
+  | assignMol k sp m =>
+    simp only
+    split
+    · exact h
+    · rename_i s hk
+      exact put_inv w k _ h (assignMol_inv s sp m (h s (List.mem_of_getElem? hk)))
+
+theorem initWorld_inv (n : Nat) : ∀ s ∈ initWorld n, s.Inv := by
+  intro s hs
+  have := List.eq_of_mem_replicate hs
+  subst this
+  constructor
+  · simp [Store.ids]
+  · intro sp; simp
+  · intro sp i; simp [Dict.getD, Dict.get?]
+  · intro sp i; simp [Dict.getD, Dict.get?]
+  · intro sp hsp; simp [Dict.keys] at hsp
+  · intro e he; simp at he
+  · intro e he; simp at he
+
+theorem inv_run (w : World) (ops : List Op) (h : ∀ s ∈ w, s.Inv) : ∀ s ∈ run w ops, s.Inv := by
+  unfold run
+  induction ops generalizing w with
+  | nil => exact h
+  | cons op ops ih =>
+    simp only [List.foldl_cons]
+    exact ih _ (step_inv w op h)
 end SynKit.Store
